@@ -64,17 +64,20 @@ def gen_c13(tier: str, rng: random.Random) -> Iterator[Dict[str, Any]]:
             sc["variants"] = _pairs(steps, total, tier, rng)
             yield sc
     # ---- h2c upgrade carrying a body: ignored, served as HTTP/1.1 --------------------------------
-    rq = {"rid": 1, "method": "POST", "target": "/h2c-body", "body": {"framing": "cl", "len": 5},
-          "headers": [["host", "hypercorn"], ["connection", "Upgrade, HTTP2-Settings"], ["upgrade", "h2c"],
-                      ["http2-settings", H2C_SETTINGS[0]]]}
-    sc = base_script([rq, {"rid": 2, "method": "GET", "target": "/next"}], {"*": resp}, fam="c13/h2c-body")
-    sc["opening"] = "h2c-body"
-    total = stream_len(sc)
-    def steps(c, total=total):
-        st = [{"s": "send", "upto": c}] if c else []
-        return st + [{"s": "send", "upto": total}, {"s": "dt", "d": 0.05}]
-    sc["variants"] = _pairs(steps, total, tier, rng)
-    yield sc
+    # (the body may be announced by content-length or by transfer-encoding alone)
+    for framing in ({"framing": "cl", "len": 5}, {"framing": "chunked", "len": 5, "chunks": [2, 3]}):
+        rq = {"rid": 1, "method": "POST", "target": "/h2c-body", "body": dict(framing),
+              "headers": [["host", "hypercorn"], ["connection", "Upgrade, HTTP2-Settings"], ["upgrade", "h2c"],
+                          ["http2-settings", H2C_SETTINGS[0]]]}
+        sc = base_script([rq, {"rid": 2, "method": "GET", "target": "/next"}], {"*": resp},
+                         fam="c13/h2c-body/%s" % framing["framing"])
+        sc["opening"] = "h2c-body"
+        total = stream_len(sc)
+        def steps(c, total=total):
+            st = [{"s": "send", "upto": c}] if c else []
+            return st + [{"s": "send", "upto": total}, {"s": "dt", "d": 0.05}]
+        sc["variants"] = _pairs(steps, total, tier, rng)
+        yield sc
     # ---- WebSocket upgrade followed by a message in the same read ----------------------------------
     prog = [["recv"], ["send", {"type": "websocket.accept"}], ["recv"], ["send", {"type": "websocket.send", "pat": [5, 0, 3]}],
             ["recv_disc"]]
